@@ -231,6 +231,62 @@ CHECKS = {
         note=TB_COMMON + " C03 (only legal moves searched), C05 (terminal scores), C08/C15 (table keys and faithfulness) are assumed."),
 }
 
+
+def _amend(pid, field, old, new):
+    """Later additions to a check are spliced into the table's text (asserting that the anchor text is still there)."""
+    assert old in CHECKS[pid][field], (pid, field, old[:50])
+    CHECKS[pid][field] = CHECKS[pid][field].replace(old, new, 1)
+
+
+_amend("C04", "technique", "term checks of the cancellation token, shared root rule of C17",
+       "term checks of the cancellation token, symbolic-path ranking argument for the principal-line walk, cycle / must-pass analysis of the deepening loop "
+       "for stop polls, shared root rule of C17")
+_amend("C04", "text", "Decides structural clauses X1-X8: the 167 panic sites reachable from the search/control threads are excluded (136 discharged, 31 add/mul/neg overflows of",
+       "Decides structural clauses X1-X9: the panic sites reachable from the search/control threads are excluded (discharged; add/mul/neg overflows of")
+_amend("C04", "text", "loop bounded by max_depth; the root is never answered by the repetition shortcut.",
+       "loop bounded by max_depth and left on an empty line; the principal-line walk is bounded by a stepped counter (X8); every iteration of the deepening loop "
+       "passes an unconditional poll of the stop flag, the first excepted (X9); the root is never answered by the repetition shortcut.")
+_amend("C14", "technique", "guarded slices), and a reviewed-site table",
+       "guarded slices), a reviewed-site table, a taint rule following the text-controlled FEN counters past the chess-logic boundary (P5), SCC check of the text layer (P4)")
+_amend("C14", "text", "Proof relative to 7 individually reviewed sites: all 65 panic sites in the 74 workspace functions reachable",
+       "Proof relative to the individually reviewed sites: all panic sites in the workspace functions reachable")
+_amend("C14", "text", "so the release profile is covered as well.",
+       "so the release profile is covered as well. P5: no checked arithmetic on the move counters parsed from the FEN anywhere reachable from the UCI loop "
+       "(no boundary); P4: the text layer is not recursive.")
+_amend("C06", "technique", "root window, max merge)",
+       "root window, max merge, classification of every exit of the deepening loop, mutation inventory of the node's move buffer)")
+_amend("C06", "text", "deepening stops early only at best_eval >= POS_INF;",
+       "deepening stops early only at best_eval >= POS_INF, and every exit of the deepening loop is the depth limit, that mate stop, an interrupt / stop request or a "
+       "root without a line (R10); the node's move buffer is never shortened between generation and the move loop, which walks all of it (R13);")
+_amend("C13", "technique", "folding of the piece-square index term for both colours over 64 squares",
+       "folding of the piece-square index term for both colours over 64 squares, exhaustive folding of every square-derived sub-expression of the terms over all "
+       "square assignments against its rank-flipped image (symbolic paths), colour-exchange comparison of the position summary, purity (no thread-local / "
+       "mutable static) of everything reachable from the evaluation")
+_amend("C13", "text", "Mirror symmetry of the numeric content of the terms is NOT decided.",
+       "Further: every expression a term builds from position squares behaves the same on the rank-flipped squares, folded for all 64 or 64x64 assignments (M2); "
+       "the position summary is unchanged under exchange of the colour constants (M3); the evaluation reads no thread-local or mutable static (M4). Rank geometry "
+       "expressed on bitboards and squares handed to unfoldable functions are NOT decided.")
+_amend("C16", "technique", "must-pass-through on the per-game builder closure;",
+       "must-pass-through on the per-game builder closure, the builder's splitting idiom read from its MIR and applied to the repository's book files (static data), "
+       "stage whitelist of the games pipeline;")
+_amend("C16", "text", "every parsed move of every game is appended.",
+       "every parsed move of every game is appended; every chunk of the book files that is a game passes the builder's filter and nothing between the split and the "
+       "per-game fold can drop or regroup games.")
+_amend("C17", "technique", "hash-map mutation inventory of the repetition history",
+       "hash-map mutation inventory of the repetition history, provenance of the (hasher, tables, history) working set")
+_amend("C17", "text", "Decides structural clauses D1-D6:", "Decides structural clauses D1-D8:")
+_amend("C17", "text", "recursion deepens and the root starts at depth 0.",
+       "recursion deepens and the root starts at depth 0; a history taken over from an earlier artifact comes with that artifact's hasher (D8); table entries "
+       "written before a position was recorded are the listed known finding (D7).")
+_amend("C18", "technique", "type-walk carrier discovery,", "type-walk carrier discovery plus locals written through &mut by the collection of a search,")
+_amend("C01", "technique", "against a geometry oracle", "against a geometry oracle; re-runs C02's successor rules and C10's attack-map rules")
+_amend("C05", "technique", "shared legality-filter rule of C01", "shared rules of C01 (legality filter, generator coverage, pawn rules) and C10 (check test, attack-map construction)")
+_amend("C07", "technique", "loop-exit dominance in the deepening loop",
+       "loop-exit dominance in the deepening loop; re-runs C02's successor rules, C15's store rules and C08's hash rules")
+_amend("C12", "technique", "writer call-sequence comparison", "writer call-sequence comparison; re-runs C02's resolution rule and C11's square-text rule")
+_amend("C10", "technique", "decoded fn-pointer dispatch table vs Piece discriminants", "decoded fn-pointer dispatch table vs Piece discriminants; re-runs C09's reader/writer slot rule")
+
+
 NOT_BUILT_REASON = "check not built yet (see DESIGN.md for the plan)"
 NA = {
 }
